@@ -622,6 +622,12 @@ theorem C13_decode_address_unix (a : Addr) (h : Addr.WF a)
     (hu : match a with | .path _ | .abstr _ | .unnamed => True | _ => False) :
     ∀ klen ∈ Addr.kernelLens a, decodeAddr .unix a klen = some (Addr.showAddr a) := by
   intro klen hk
+  by_cases hk0 : klen < 2
+  · -- only the unnamed address is reported with a length below the family field (0)
+    cases a <;> simp at hu <;> simp [Addr.kernelLens] at hk
+    · obtain ⟨h1, h2, _⟩ := h; rcases hk with rfl | rfl <;> omega
+    · omega
+    · simp [decodeAddr, hk0, Addr.initUnix]
   have hlen : (Addr.storageUnix a).length = 110 := by
     cases a <;> simp at hu
     · exact (Addr.C16_ptr_len (.path _) h).1
@@ -633,7 +639,7 @@ theorem C13_decode_address_unix (a : Addr) (h : Addr.WF a)
     · have : _ ≤ 107 := h; omega
     · omega
   have hinit : Addr.initUnix ((Addr.storageUnix a).take klen ++ List.replicate (110 - klen) 170) klen = a := by
-    rw [Addr.C16_unix_init_ignores_tail _ _ _ (by omega) hk2.1]
+    rw [Addr.C16_unix_init_ignores_tail _ _ _ (by omega)]
     cases a <;> simp at hu
     · exact Addr.C16_roundtrip_unix_path _ h klen hk
     · exact Addr.C16_roundtrip_unix_abstract _ h klen hk
@@ -644,8 +650,10 @@ theorem C13_decode_address_unix (a : Addr) (h : Addr.WF a)
       cases a <;> simp at hu <;> simp [Addr.storageUnix, Addr.le16, Addr.AF_UNIX]
     rw [this]; simp [Addr.rd16le]
   have hnot : ¬ (klen < 2) := by omega
-  cases a <;> simp at hu <;> simp [decodeAddr, kernelBytes, mutLen, Addr.AF_UNIX, hnot] <;>
-    exact ⟨by simpa [Addr.AF_UNIX] using hfam, by rw [hinit]⟩
+  have hfam' : ¬ (Addr.rd16le ((Addr.storageUnix a).take klen ++ List.replicate (110 - klen) 170) 0
+      ≠ Addr.AF_UNIX) := by simp [hfam, Addr.AF_UNIX]
+  cases a <;> simp at hu <;>
+    simp only [decodeAddr, kernelBytes, mutLen, if_neg hnot, if_neg hfam', hinit]
 
 /-! ### `OpenOptions` -/
 
